@@ -1158,7 +1158,7 @@ pub fn c16(spec: &WorldSpec, ex: &Exec) -> Option<Viol> {
             },
             Ev::Sleep(_, ms) => {
                 if *ms != period {
-                    found = Some(viol(spec, "wrong-period", i, format!("sleep({ms} ms) requested, period is {period} ms")));
+                    found = Some(viol(spec, "wrong-period", i, format!("sleep({ms} us) requested, period is {period} us")));
                     break;
                 }
             },
